@@ -43,14 +43,15 @@ type Box struct {
 
 func (b *Box) finish() *Box {
 	if b.Mode == "B" && b.Devs == 0 {
-		b.Devs = kinds(evDeliver, evDrop, evDup, evCampaign, evPropose, evCrash, evRestart, evIsolate)
+		b.Devs = kinds(evDeliver, evDrop, evDup, evCampaign, evPropose, evCrash, evRestart, evIsolate, evDelay, evDupDelay)
 	}
 	for k := uint8(0); k < evKinds; k++ {
 		if b.has(k) {
 			b.KindNames = append(b.KindNames, evNames[k])
 		}
-		if b.Mode == "B" && b.Devs&(1<<k) != 0 && (k <= evDup || b.has(k)) {
-			if (k == evDup && b.Bud.Dups == 0) || (k == evDrop && b.Bud.Drops == 0) {
+		if b.Mode == "B" && b.Devs&(1<<k) != 0 && (k <= evDup || k == evDelay || k == evDupDelay || b.has(k)) {
+			if (k == evDup && b.Bud.Dups == 0) || (k == evDrop && b.Bud.Drops == 0) || (k == evDelay && b.Bud.Delays == 0) ||
+				(k == evDupDelay && (b.Bud.Delays == 0 || b.Bud.Dups == 0)) || k == evRelease {
 				continue
 			}
 			n := evNames[k]
@@ -58,6 +59,12 @@ func (b *Box) finish() *Box {
 				n = "deliver a message other than the oldest"
 			}
 			b.DevNames = append(b.DevNames, n)
+		}
+	}
+	if b.Mode == "B" && b.Bud.Delays > 0 {
+		b.KindNames = append(b.KindNames, "release (of a delayed message, at quiescence)")
+		if b.Devs&(1<<evRelease) != 0 {
+			b.DevNames = append(b.DevNames, "release while messages are in flight")
 		}
 	}
 	return b
@@ -139,16 +146,41 @@ func (b *Box) candidates(c *cluster, dev int) []cand {
 		return out
 	}
 	// Box B
+	// release of a delayed message: one candidate per distinct content
+	release := func(cost uint8) {
+		for i := range c.held {
+			dupOf := false
+			for j := 0; j < i; j++ {
+				if bytes.Equal(c.held[j].enc, c.held[i].enc) {
+					dupOf = true
+					break
+				}
+			}
+			if !dupOf {
+				out = append(out, cand{Event{K: evRelease, A: c.held[i].seq}, cost})
+			}
+		}
+	}
 	if len(c.pool) == 0 {
 		drivers(0, ^uint32(0))
+		release(0)
 		return out
 	}
 	out = append(out, cand{Event{K: evDeliver, A: c.pool[0].seq}, 0})
 	if dev >= b.MaxDev {
 		return out
 	}
+	if b.Devs&(1<<evRelease) != 0 {
+		release(1)
+	}
 	for i := range c.pool {
 		s := c.pool[i].seq
+		if b.Bud.Delays > 0 && b.Devs&(1<<evDelay) != 0 {
+			out = append(out, cand{Event{K: evDelay, A: s}, 1})
+		}
+		if b.Bud.Delays > 0 && b.Bud.Dups > 0 && b.Devs&(1<<evDupDelay) != 0 {
+			out = append(out, cand{Event{K: evDupDelay, A: s}, 1})
+		}
 		if i > 0 && !bytes.Equal(c.pool[i].enc, c.pool[0].enc) && b.Devs&(1<<evDeliver) != 0 {
 			out = append(out, cand{Event{K: evDeliver, A: s}, 1})
 		}
